@@ -46,3 +46,8 @@ add("C16", "exploration", "identity round trip through the real response and req
     "through the real Request.cookies of both interfaces; exhaustive over all 256 code points in 5 positions and all pairs of 13 special characters, plus random Latin-1 values. Expires is "
     "parsed independently and must lie in [floor(t0+s), floor(t1+s)] under 7 process time zones; Max-Age and delete semantics are checked.",
     "Client echoes the pair exactly as emitted; wall clock used only as a containment bracket.")
+add("C18", "exploration", "URL composer / component model compared with urlsplit of the real result (request.url on both interfaces, URL.replace over component subsets, query helpers) + repr-masking predicate",
+    "request.url is built by the real WSGI and ASGI Request from the product of schemes x server addresses (names, IPv4, IPv6, default/other ports) x Host headers x root paths x paths x queries and "
+    "compared component-wise with an independent composer; URL.replace is run for every subset of <=2 (thorough 3) of the 8 components on 90 base URLs and compared with a component model; the "
+    "query helpers are compared with a multi-value list model; repr() must mask exactly the password.",
+    "Generator domain = what a URL can represent (stated in the evidence assumptions); two known findings (decoded path pasted unquoted) are listed in known_findings.json and matched only when the observed components equal what that mechanism predicts.")
